@@ -310,13 +310,44 @@ static const char *tags[] = { "t", "al-x", "w", "joe-foo" };
 #define NPOOL 6
 static char pool[NPOOL][40];
 
+/* Alphabet mode (amode = 1, legs 9-11): labels, users and tags are drawn from the whole alphabet instead of the fixed
+ * name lists, every occurrence of a name is re-cased independently, and recipients get near-miss edits.  Every extra
+ * random draw is guarded by amode, so the classic legs (4)-(6) consume exactly the stream they always did. */
+static int amode;
+static char ausers[7][20], atags[4][20];
+static int is_letter(int c) { return (c >= 'a' && c <= 'z') || (c >= 'A' && c <= 'Z'); }
+static int flipc(int c) { return is_letter(c) ? c ^ 32 : c; }
+static int gen_alabel(char *o) {          /* 1..4 bytes: letters of either case, the ends of the alphabet favoured */
+  int n = 1 + h_below(4);
+  for (int i = 0; i < n; i++) {
+    unsigned k = h_below(24);
+    int ch = k < 4 ? "azyb"[k] : k == 4 ? "0123456789-"[h_below(11)] : k == 5 ? "[`{"[h_below(3)] : 'a' + (int)h_below(26);
+    if (h_below(2)) ch = flipc(ch);
+    o[i] = ch;
+  }
+  o[n] = 0; return n;
+}
+static void pick_label(char *o) { if (amode) gen_alabel(o); else strcpy(o, labels[h_below(4)]); }
+static const char *pick_user(void) { return amode ? ausers[h_below(7)] : users[h_below(7)]; }
+static const char *pick_tag(void) { return amode ? atags[h_below(4)] : tags[h_below(4)]; }
+
 static void gen_domain(char *o) {
   int parts = 1 + h_below(3); o[0] = 0;
-  for (int i = 0; i < parts; i++) { if (i) strcat(o, "."); strcat(o, labels[h_below(4)]); }
+  for (int i = 0; i < parts; i++) { char l[8]; if (i) strcat(o, "."); pick_label(l); strcat(o, l); }
 }
 static void randcase(char *s, int prob) {
+  if (amode) prob = 50;
   for (; *s; s++) if (h_below(100) < (unsigned)prob) {
     if (*s >= 'a' && *s <= 'z') *s -= 32; else if (*s >= 'A' && *s <= 'Z') *s += 32; }
+}
+static void gen_anames(void) {            /* alphabet mode: users and tags of this configuration */
+  for (int i = 0; i < 7; i++) {
+    gen_alabel(ausers[i]);
+    if (i == 4 && h_below(2)) ausers[i][0] = 0;
+    if (i == 5) { char l[8]; gen_alabel(l); strcat(ausers[i], "."); strcat(ausers[i], l); }
+    if (i == 6) { char l[8]; gen_alabel(l); strcat(ausers[i], "-"); strcat(ausers[i], l); }
+  }
+  for (int i = 0; i < 4; i++) { gen_alabel(atags[i]); if (i & 1) { char l[8]; gen_alabel(l); strcat(atags[i], "-"); strcat(atags[i], l); } }
 }
 static const char *pick_dom(void) { return pool[h_below(NPOOL)]; }
 
@@ -339,7 +370,7 @@ static void chop_final_newline(hbuf *b) { if (b->n && h_below(5) == 0) b->n--; }
 static void gen_files(files *F, int newpool) {
   char k[120];
   int noise = h_below(3) != 0, allowdup = h_below(25) == 0;
-  if (newpool) for (int i = 0; i < NPOOL; i++) gen_domain(pool[i]);
+  if (newpool) { for (int i = 0; i < NPOOL; i++) gen_domain(pool[i]); if (amode) gen_anames(); }
   for (int i = 0; i < NF; i++) { hbuf_reset(&F->b[i]); F->present[i] = 0; }
   /* me */
   if (h_below(5)) { F->present[0] = 1; strcpy(k, pick_dom()); randcase(k, 10); add_line(&F->b[0], k, 0); if (h_below(6) == 0) add_line(&F->b[0], "second.line", 0); }
@@ -364,16 +395,16 @@ static void gen_files(files *F, int newpool) {
     for (int i = 0; i < n; i++) {
       char key[100]; const char *d = pick_dom();
       switch (h_below(9)) {
-        case 0: case 1: snprintf(key, sizeof key, "%s@%s", users[h_below(7)], d); break;       /* virtual user */
+        case 0: case 1: snprintf(key, sizeof key, "%s@%s", pick_user(), d); break;             /* virtual user */
         case 2: case 3: snprintf(key, sizeof key, "%s", d); break;                              /* domain */
         case 4: case 5: { const char *dot = strchr(d, '.'); snprintf(key, sizeof key, "%s", dot ? dot : ".a"); break; } /* wildcard */
         case 6: snprintf(key, sizeof key, ".%s", d); break;                                     /* wildcard one level up */
-        case 7: if (h_below(4) == 0) snprintf(key, sizeof key, ".%s@%s", users[h_below(7)], d); else key[0] = 0; break;   /* catch-all / dot-user */
-        default: snprintf(key, sizeof key, ".%s", labels[h_below(4)]); break;
+        case 7: if (h_below(4) == 0) snprintf(key, sizeof key, ".%s@%s", pick_user(), d); else key[0] = 0; break;   /* catch-all / dot-user */
+        default: { char l[8]; pick_label(l); snprintf(key, sizeof key, ".%s", l); break; }
       }
       randcase(key, 15);
       if (!fresh_key(key, allowdup)) continue;
-      const char *tag = h_below(4) == 0 ? "" : tags[h_below(4)];
+      const char *tag = h_below(4) == 0 ? "" : pick_tag();
       if (h_below(15) == 0) snprintf(k, sizeof k, "%s", key[0] ? key : "nocolon");               /* not an entry */
       else if (h_below(20) == 0) snprintf(k, sizeof k, "%s:%s:x", key, tag);
       else snprintf(k, sizeof k, "%s:%s", key, tag);
@@ -385,10 +416,12 @@ static void gen_files(files *F, int newpool) {
 static size_t gen_recip(unsigned char *o) {
   char d1[60], d2[60], d3[60], u[20], r[400];
   strcpy(d1, pick_dom()); strcpy(d2, pick_dom()); strcpy(d3, pick_dom());
-  strcpy(u, users[h_below(7)]);
+  strcpy(u, pick_user());
+  if (amode) { randcase(d1, 50); randcase(d2, 50); randcase(d3, 50); randcase(u, 50); }   /* every occurrence re-cased */
   if (h_below(4) == 0) randcase(d1, 40);
   if (h_below(8) == 0) randcase(u, 50);
-  if (h_below(6) == 0) { char t[60]; snprintf(t, sizeof t, "%s.%s", labels[h_below(4)], d1); strcpy(d1, t); }   /* extra label */
+  if (h_below(6) == 0) { char t[60], l[8]; pick_label(l); snprintf(t, sizeof t, "%s.%s", l, d1); strcpy(d1, t); }   /* extra label */
+  if (amode && h_below(8) == 0) { char *dot = strchr(d1, '.'); if (dot) memmove(d1, dot + 1, strlen(dot + 1) + 1); }   /* one label less */
   if (h_below(25) == 0) { char t[60]; snprintf(t, sizeof t, ".%s", d1); strcpy(d1, t); }
   if (h_below(25) == 0) strcat(d1, ".");
   if (h_below(30) == 0 && d1[0]) d1[strlen(d1) - 1] = 0;
@@ -406,6 +439,14 @@ static size_t gen_recip(unsigned char *o) {
     default: { int n = h_below(9); for (int i = 0; i < n; i++) r[i] = "u@%.aBb:"[h_below(8)]; r[n] = 0; break; }
   }
   size_t n = strlen(r); memcpy(o, r, n);
+  if (amode && n && h_below(3) == 0) {      /* near miss: one letter becomes its neighbour byte / an adjacent non-letter */
+    for (int tries = 0; tries < 8; tries++) {
+      size_t j = h_below(n); int ch = o[j];
+      if (!is_letter(ch)) continue;
+      switch (h_below(3)) { case 0: o[j] = ch + 1; break; case 1: o[j] = ch - 1; break; default: o[j] = "@[`{"[h_below(4)]; break; }
+      break;
+    }
+  }
   if (h_below(60) == 0 && n) o[h_below(n)] = 1 + h_below(255);
   return n;
 }
@@ -436,6 +477,40 @@ static void load_fixed(files *F, int c) {
   for (int i = 0; i < NF; i++) { hbuf_reset(&F->b[i]); F->present[i] = fixed_cfg[c][i] != 0;
     if (F->present[i]) badd(&F->b[i], fixed_cfg[c][i], strlen(fixed_cfg[c][i])); }
 }
+
+/* ------------------------------------------------------------------ letter legs (seed-independent) */
+/* the 56 bytes '@'..'[' and '`'..'{': every letter in both cases and the four non-letters adjacent to the two ranges */
+static int letter_byte(int i) { return i < 28 ? '@' + i : '`' + (i - 28); }
+
+/* expand a template: P -> p, Q -> p with the case flipped, everything else literal */
+static size_t expand(unsigned char *o, const char *t, int p) {
+  size_t n = 0;
+  for (; *t; t++) o[n++] = *t == 'P' ? p : *t == 'Q' ? flipc(p) : (unsigned char)*t;
+  return n;
+}
+static void fadd(files *F, int i, const char *t, int p) {
+  unsigned char b[64]; size_t n = expand(b, t, p);
+  F->present[i] = 1; badd(&F->b[i], b, n);
+}
+/* one control directory in which the byte k is a one-letter label of an entry of every kind; the other labels are
+ * digits, so that no key is repeated whatever k is.  e = the spelling used in envnoathost */
+static void letter_cfg(files *F, int k, int e, int catchall) {
+  for (int i = 0; i < NF; i++) { hbuf_reset(&F->b[i]); F->present[i] = 0; }
+  fadd(F, 0, "9\n", 0);
+  fadd(F, 1, "P.2\n", e);
+  fadd(F, 2, "P\nP.1\n1.P\nP.2\n", k);
+  fadd(F, 3, "P.3\nP\n", k);
+  fadd(F, 4, "u@P.4:t1\nP.5:t2\n.P.6:t3\nP@P.7:t4\n.P:t5\nP.8:\nuPv@0:t6\n", k);
+  if (catchall) fadd(F, 4, ":t9\n", 0);
+}
+static const char *letter_probes[] = {
+  "u@P", "u@P.1", "u@1.P", "u@P.2", "P", "u@P.4", "v@P.4", "u@P.5", "u@0.P.5", "u@0.P.6", "u@P.6", "u@0.0.P.6", "u@0.Q.6",
+  "P@P.7", "Q@P.7", "P@Q.7", "u@0.P", "u@P.8", "u@0.P.8", "uPv@0", "upv@0", "u%P.1@P.3", "u%P.1@Q.3", "u%Q.1@P.3",
+  "u%P.1%P.3@P", "u%P.5@Q", "u%P.5%Q@P.3" };
+static const char *letter_kbufs[] = { "P\0", "xPy\0", "PP\0", "P:v\0", "xPy:w\0", "0\0P\0" "1\0", "0:a\0P:b\0Q.:c\0" };
+static const int letter_kbuflen[] = { 2, 4, 3, 4, 6, 6, 13 };
+static const int letter_kfc[] = { 0, 0, 0, 1, 1, 0, 1 };
+static const char *letter_kkeys[] = { "P", "xPy", "XPY", "PP", "PQ", "P." };
 
 /* ------------------------------------------------------------------ stdin mode */
 static files SF; static step steps[64];
@@ -610,6 +685,115 @@ int main(int argc, char **argv) {
     }
     do_S(&F, steps, ns);
   }
+
+  /* (7) exhaustive, seed-independent letter leg: every letter A..Z a..z and the four adjacent non-letters @ [ ` { as a
+   * one-letter label in envnoathost, locals, percenthack and every kind of virtualdomains entry (user@domain, domain,
+   * .suffix wildcard, with and without catch-all, exception), the key written in either case, envnoathost in either case,
+   * probed with the same byte, the other case, both neighbour bytes and the byte that differs in bit 5 only */
+  for (int li = 0; li < 56; li++) {
+    int c = letter_byte(li);
+    for (int v = 0; v < 8; v++) {
+      if (!is_letter(c) && (v & 3)) continue;
+      int k = (v & 1) ? flipc(c) : c, e = (v & 2) ? flipc(k) : k;
+      int doit = (int)(id++ % nshards) == shard;
+      if (!doit) continue;
+      letter_cfg(&F, k, e, v >> 2); do_G(&F);
+      int ps[5] = { c, flipc(c), c + 1, c - 1, c ^ 32 };
+      for (int pi = 0; pi < 5; pi++) {
+        int dup = 0; for (int pj = 0; pj < pi; pj++) if (ps[pj] == ps[pi]) dup = 1;
+        if (dup) continue;
+        for (unsigned t = 0; t < sizeof letter_probes / sizeof letter_probes[0]; t++) { size_t n = expand(r, letter_probes[t], ps[pi]); do_R(r, n); }
+      }
+      do_R((const unsigned char *)"u", 1); do_R((const unsigned char *)"u@", 2); do_R(r, 0);
+    }
+  }
+  /* (8) the same bytes through constmap_init/constmap directly: single entries, the byte inside a longer key, and tables
+   * listing the whole alphabet in one case probed with every byte in both cases */
+  for (int li = 0; li < 56; li++, id++) {
+    if ((int)(id % nshards) != shard) continue;
+    int c = letter_byte(li);
+    int ps[5] = { c, flipc(c), c + 1, c - 1, c ^ 32 };
+    for (unsigned b = 0; b < sizeof letter_kbufs / sizeof letter_kbufs[0]; b++) {
+      unsigned char buf[32]; size_t bn = 0;
+      for (int j = 0; j < letter_kbuflen[b]; j++) { int ch = (unsigned char)letter_kbufs[b][j]; buf[bn++] = ch == 'P' ? c : ch == 'Q' ? flipc(c) : ch; }
+      for (int pi = 0; pi < 5; pi++) for (unsigned t = 0; t < sizeof letter_kkeys / sizeof letter_kkeys[0]; t++) {
+        size_t n = expand(r, letter_kkeys[t], ps[pi]); do_K(buf, bn, letter_kfc[b], r, n); }
+    }
+    for (int up = 0; up < 2; up++) for (int fc = 0; fc < 2; fc++) {
+      static hbuf tb; hbuf_reset(&tb);
+      for (int j = 0; j < 26; j++) { char e[4] = { (char)((up ? 'A' : 'a') + j), ':', (char)('a' + (j * 7) % 26), 0 }; badd(&tb, e, fc ? 3 : 1); badd(&tb, "", 1); }
+      for (int pi = 0; pi < 5; pi++) { r[0] = ps[pi]; do_K(tb.p, tb.n, fc, r, 1); }
+    }
+    for (int pi = 0; pi < 5; pi++) { r[0] = 'k'; r[1] = ps[pi]; r[2] = '.'; r[3] = ps[pi]; do_X(r, 4); do_B(ps[pi], r, 4); }
+  }
+
+  /* (9)-(11) seeded alphabet legs (their own stream, so legs (4)-(6) above are unchanged): labels, users and tags are random
+   * strings over the whole alphabet (ends of the alphabet favoured, occasional digits - and [ ` {), every occurrence in a
+   * control file and in a recipient is re-cased independently, recipients get near misses (a letter replaced by the next /
+   * previous byte or by one of @ [ ` {, one label more, one label less) */
+  h_seed(seed * 1000003ull + 17 * shard + 500009);
+  amode = 1;
+  int naconf = nconfigs / 3 + 1, nascen = nscen / 8 + 1;
+  for (int c = 0; c < naconf; c++) {
+    if ((c % nshards) != shard) continue;
+    gen_files(&F, 1); do_G(&F);
+    int nr = 32 + h_below(16);
+    for (int i = 0; i < nr; i++) { size_t n = gen_recip(r); do_R(r, n); }
+    /* every configured name probed as it stands and with the case of every letter flipped */
+    for (int d = 0; d < NPOOL; d++) for (int fl = 0; fl < 2; fl++) {
+      char t[120]; snprintf(t, sizeof t, "%s@%s", pick_user(), pool[d]);
+      if (fl) for (char *q = t; *q; q++) *q = flipc((unsigned char)*q);
+      do_R((unsigned char *)t, strlen(t));
+    }
+    for (int i = 0; i < 2; i++) {
+      size_t n = gen_recip(r); unsigned char s[200]; size_t sn;
+      for (size_t j = 0; j < n; j++) if (!r[j]) r[j] = 'z';
+      sn = snprintf((char *)s, sizeof s, "%s%s%s%s", "list-", h_below(5) ? "@" : "", pick_dom(), h_below(6) ? "-@[]" : "-@[");
+      do_V(s, sn, r, n, h_below(120), h_below(100000));
+    }
+  }
+  /* (10) constmap directly with keys over the whole alphabet */
+  for (int c = 0; c < naconf; c++) {
+    if ((c % nshards) != shard) continue;
+    static hbuf b; hbuf_reset(&b);
+    int fc = h_below(2), big = h_below(6) == 0;
+    int n = big ? 60 + h_below(260) : h_below(9);
+    static char keys[400][12]; int nk = 0;
+    for (int i = 0; i < n; i++) {
+      char k[12]; int l = gen_alabel(k);
+      if (h_below(4) == 0) { k[l++] = h_below(2) ? '.' : '@'; l += gen_alabel(k + l); }
+      int dup = 0; for (int j = 0; j < nk; j++) if (lc_eq(keys[j], k)) dup = 1;
+      if (dup && (!big || h_below(4))) continue;
+      strcpy(keys[nk++], k);
+      badd(&b, k, l);
+      if (fc && h_below(12)) { char v[8]; int vl = h_below(3); v[0] = ':'; for (int j = 0; j < vl; j++) v[1 + j] = "xZ:"[h_below(3)]; badd(&b, v, 1 + vl); }
+      badd(&b, "", 1);
+    }
+    for (int q = 0; q < (big ? 32 : 12); q++) {
+      char k[14]; int l;
+      if (nk && h_below(4)) {
+        strcpy(k, keys[h_below(nk)]); randcase(k, 50); l = strlen(k);
+        if (h_below(4) == 0) { int j = h_below(l); int ch = (unsigned char)k[j];
+          if (is_letter(ch)) k[j] = h_below(3) == 0 ? "@[`{"[h_below(4)] : h_below(2) ? ch + 1 : ch - 1; }
+        else if (h_below(10) == 0) { k[l++] = 'z'; k[l] = 0; }
+        else if (h_below(10) == 0 && l > 1) k[--l] = 0;
+      } else l = gen_alabel(k);
+      do_K(b.p, b.n, fc, (unsigned char *)k, l);
+    }
+  }
+  /* (11) the real main() on alphabet configurations, SIGHUP between messages */
+  for (int c = 0; c < nascen; c++) {
+    if ((c % nshards) != shard) continue;
+    gen_files(&F, 1);
+    if (!F.present[0] && !F.present[2]) F.present[2] = 1;
+    int ns = 0;
+    steps[ns].kind = 'M'; gen_todo(&steps[ns].todo); ns++;
+    gen_files(&steps[ns].F, 0); steps[ns].kind = h_below(6) ? 'H' : 'E'; ns++;
+    int m2 = 1 + h_below(2);
+    for (int i = 0; i < m2; i++) { steps[ns].kind = 'M'; gen_todo(&steps[ns].todo); ns++; }
+    do_S(&F, steps, ns);
+  }
+  amode = 0;
   fflush(h_out);
   return 0;
 }
